@@ -1,3 +1,59 @@
+/-
+  Sipsp.Proofs.UriCmpPerm — property C15 ON THE URI TEXT: order invariance, letter-case invariance, case-sensitivity of
+  user / password and the presence rule for URIParseCmp (URIRawCmp), stated on byte strings built from their parts.
+
+  THE RENDERING (`UcpmParts`, `ucpmText` / `ucpmRaw`): scheme (`sip:` / `sips:` in any letter case), optional
+  `user[:password]@`, a host name, optional `:port`, a LIST of parameter items `name[=value]` joined with `;` (behind a
+  leading `;`), a LIST of header items `name[=value]` joined with `&` (behind `?`).  This is the simplest well-formed
+  shape: names and values are plain tokens — no white space, no quoted strings, no empty items, no `name=` with an
+  empty value; the host is a name (no `[…]` reference).  Side conditions `UcpmOk`:
+    * user / password bytes: none of `@ : ; ? [ ]` (`ucTok`); a password only behind a user; host not empty, none of
+      `@ : ; ? [ ] &`; port: decimal digits of value ≤ 65535;
+    * item names not empty; name and value bytes are the bytes ParseTokenParam continues a token with (`PChar`):
+      letters, digits, `-_.!~*'()%[]/:+$`, plus `&` in parameters and `?` in headers (C17 `allowed_bytes_documented`);
+    * parameter names duplicate-free up to letter case, header names likewise (`UcpmNoDup`), at most 100 items each,
+      the whole text at most 65,535 bytes.
+  PROVED for ALL such parts (any lengths within those limits) and EVERY flag value (any `Nat`):
+    * `ucpm_ucURI`, `ucpm_parse`: the rendering is a URI of the grammar `UcURI` of C14; ParseURI accepts it, consumes
+      it to the end, does not panic and returns exactly the components `ucpmURI` (by `parseURI_complete`);
+      `ucpm_gets`: user, password, host, parameter string, header string read back as the parts;
+    * `ucpm_glist`: the joined item list is a `GList` of the grammar of C17 for both separators; `ucpm_params_parse`,
+      `ucpm_hdrs_parse`: ParseAllURIParams / ParseAllURIHdrs store the items in order, each with the type of its name
+      (an EMPTY list is stored as ONE item with empty name and value: `ucpmEff`);
+    * `ucpm_paramsEq_spec`, `ucpm_hdrsEq_spec`: URIParamsEq / URIHdrsEq on two rendered lists: no panic, no error, and
+      the verdict in terms of the items (`UcpmParamsEqv`, `UcpmHdrsEqv`); `ucpm_paramsEqv_eff`, `ucpm_hdrsEqv_eff`:
+      the one empty item of an empty list never changes a verdict;
+    * EXPORT C15 `uriParseCmp_text_spec`: for any two renderings, URIParseCmp does not panic, reports no error, hands
+      back the two parsed URIs, and says "equal" EXACTLY when (`UcpmSpec`): scheme type equal or skipped; port NUMBER
+      equal or skipped; user bytes identical or skipped; password bytes identical or skipped; hosts equal up to case;
+      parameters skipped or { each of user / ttl / method / maddr (any case) a name of both lists or of neither, and
+      items with the same name up to case have the same value up to case }; headers skipped or { same count and every
+      header of the first occurs in the second with the same name and value up to case };
+    * EXPORT C15 `uriParseCmp_perm_text` (2): same parts with the parameter items and / or header items in any other
+      order ⇒ verdict true, no error, both orders of the arguments (`UcpmOk.perm`: the side conditions carry over);
+    * EXPORT C15 `uriParseCmp_case_text`, `uriParseCmp_case_text_gen` (3): other letter case of scheme, host, parameter
+      names / values, header names / values (`UcpmCaseVar`) ⇒ equal; verdict against any third rendering unchanged;
+      `uriParseCmp_congr_text`, `uriParseCmp_same_text`: order and letter case together (`UcpmSameParts`);
+    * EXPORT C15 `uriParseCmp_user_case_text`, `uriParseCmp_pass_case_text`, `uriParseCmp_user_skip_text` (4): different
+      user / password bytes (e.g. another letter case) ⇒ verdict false unless the flags skip that comparison, in which
+      case renderings that agree otherwise are equal;
+    * EXPORT C15 `uriParseCmp_presence_text`, `uriParseCmp_extra_param_text` (5): a user / ttl / method / maddr item (any
+      case) in only one of the two ⇒ verdict false in both argument orders (parameters not skipped); an item of any
+      OTHER name in only one of the two, anywhere in the list ⇒ verdict true in both orders.
+  Tests at the end (`decide +kernel`): `UcpmOk`, `UcpmCaseVar` are satisfiable, every theorem is applied to a concrete
+  URI with user, password, port, three parameters and two headers, and evaluation of the model agrees.
+
+  NOT proved here:
+    * texts outside the rendering: white space / folds, empty items (`;;`), quoted values, `name=` with an empty
+      value, `[…]` hosts, user parts containing `;` or `?`, tel: URIs, more than 100 items (only the first 100 are
+      stored and compared), duplicate names (the laws are false there: C15 `symm_needs_nodup`);
+    * that the header VALUES matter only up to letter case is part of the statements (the model compares them with
+      CmpEq), although the property text speaks of header names only.
+  Behaviour worth knowing, all consequences of `uriParseCmp_text_spec` (tests at the end): a written but empty
+  password (`sip:u:@h`) equals no password; ports are compared by NUMBER (`:5060` = `:05060`, no port = `:` = `:0`);
+  a parameter without value has the empty value: `;lr` = `;lr=` but `;lr` ≠ `;lr=x`; header values, like header
+  names, are compared up to letter case (`?a=X` = `?A=x`).
+-/
 import Sipsp.Proofs.UriCmpLink
 import Sipsp.Proofs.UriComplete
 namespace Sipsp
@@ -1066,7 +1122,7 @@ theorem ucpm_rest {b : Buf} (p : UcpmParts) (hok : UcpmOk p)
       · show (⟨ucpmHs p, p.host.length⟩ : PField) = _
         rw [show p.scheme.length + p.user.length + 1 + pw.length + 1 = ucpmHs p by omega, hhe, Nat.add_sub_cancel_left]
 
-/-- **the rendering is a URI of the grammar of C14, with the components `ucpmURI`** -/
+/-- [EXPORT C15] **the rendering is a URI of the grammar of C14, with the components `ucpmURI`** -/
 theorem ucpm_ucURI (p : UcpmParts) (hok : UcpmOk p) : UcURI (ucpmRaw p) (ucpmURI p) := by
   have hat : UcpmAt (ucpmRaw p) 0 (ucpmText p) := UcpmAt.self _
   unfold ucpmText at hat
@@ -1109,7 +1165,7 @@ theorem ucpm_ucURI (p : UcpmParts) (hok : UcpmOk p) : UcURI (ucpmRaw p) (ucpmURI
     · simp only [ucpmURI, hlen]
     · rw [← hlen]; exact hrest
 
-/-- **ParseURI on the rendering**: accepted, consumed to the end, no panic, the components are `ucpmURI` -/
+/-- [EXPORT C15] **ParseURI on the rendering**: accepted, consumed to the end, no panic, the components are `ucpmURI` -/
 theorem ucpm_parse (p : UcpmParts) (hok : UcpmOk p) :
     parseURI (ucpmRaw p) {} = (UErr.none, (ucpmRaw p).size, ucpmURI p, false) :=
   parseURI_complete _ (by simpa [ucpmRaw] using hok.fit) _ (ucpm_ucURI p hok)
@@ -1289,7 +1345,7 @@ theorem ucpm_uriCmp_true_iff (p q : UcpmParts) (hp : UcpmOk p) (hq : UcpmOk q) (
   · rintro ⟨a1, a2, a3, a4, a5, a6, a7⟩
     exact ⟨⟨a1, a2, a3, a4, a5⟩, a6, a7⟩
 
-/-- **URIParseCmp on two renderings**: no panic, no error, both parsed URIs handed back (they are `ucpmURI`), and the
+/-- [EXPORT C15] **URIParseCmp on two renderings**: no panic, no error, both parsed URIs handed back (they are `ucpmURI`), and the
     verdict is "equal" exactly when the parts are equal in the sense of `UcpmSpec` — for every flag value -/
 theorem uriParseCmp_text_spec (p q : UcpmParts) (hp : UcpmOk p) (hq : UcpmOk q) (f : Nat) :
     ∃ r, uriParseCmp (ucpmRaw p) (ucpmRaw q) f = some (r, UErr.none, 0, some (ucpmURI p), some (ucpmURI q)) ∧
@@ -1311,4 +1367,566 @@ theorem uriParseCmp_text_spec (p q : UcpmParts) (hp : UcpmOk p) (hq : UcpmOk q) 
   · rw [← ucpm_uriCmp_true_iff p q hp hq f, hr]
     simp
 
+
+/-! ### the same parts up to order and letter case -/
+
+/-- two item lists hold the same items up to order and up to the letter case of names and values -/
+structure UcpmSameItems (l l' : List UcpmItem) : Prop where
+  len : l.length = l'.length
+  fwd : ∀ i ∈ l, ∃ j ∈ l', lowerL i.name = lowerL j.name ∧ lowerL i.val = lowerL j.val
+  bwd : ∀ j ∈ l', ∃ i ∈ l, lowerL i.name = lowerL j.name ∧ lowerL i.val = lowerL j.val
+
+theorem UcpmSameItems.refl (l : List UcpmItem) : UcpmSameItems l l :=
+  ⟨rfl, fun i hi => ⟨i, hi, rfl, rfl⟩, fun i hi => ⟨i, hi, rfl, rfl⟩⟩
+
+theorem UcpmSameItems.symm {l l' : List UcpmItem} (h : UcpmSameItems l l') : UcpmSameItems l' l :=
+  ⟨h.len.symm, fun j hj => by obtain ⟨i, hi, a, b⟩ := h.bwd j hj; exact ⟨i, hi, a.symm, b.symm⟩,
+   fun i hi => by obtain ⟨j, hj, a, b⟩ := h.fwd i hi; exact ⟨j, hj, a.symm, b.symm⟩⟩
+
+/-- a permutation -/
+theorem UcpmSameItems.of_perm {l l' : List UcpmItem} (h : l.Perm l') : UcpmSameItems l l' :=
+  ⟨h.length_eq, fun i hi => ⟨i, h.mem_iff.1 hi, rfl, rfl⟩, fun i hi => ⟨i, h.mem_iff.2 hi, rfl, rfl⟩⟩
+
+/-- the same items in the same order, names and values re-cased -/
+theorem UcpmSameItems.of_all2 {l l' : List UcpmItem}
+    (h : UcpmAll2 (fun i j => lowerL i.name = lowerL j.name ∧ lowerL i.val = lowerL j.val) l l') : UcpmSameItems l l' :=
+  ⟨ucpm_forall2_length h, ucpm_forall2_left h, ucpm_forall2_right h⟩
+
+/-- `p'` is `p` up to the order of the parameter items and of the header items and up to the letter case of scheme,
+    host, parameter names / values and header names / values (the port may be written differently as long as its
+    number is the same); user and password are the same bytes -/
+structure UcpmSameParts (p p' : UcpmParts) : Prop where
+  sips : p.sips = p'.sips
+  portNo : ucpmPortNo p = ucpmPortNo p'
+  user : p.user = p'.user
+  pass : ucpmPassBytes p = ucpmPassBytes p'
+  host : lowerL p.host = lowerL p'.host
+  params : UcpmSameItems p.params p'.params
+  hdrs : UcpmSameItems p.hdrs p'.hdrs
+
+theorem UcpmSameParts.refl (p : UcpmParts) : UcpmSameParts p p :=
+  ⟨rfl, rfl, rfl, rfl, rfl, UcpmSameItems.refl _, UcpmSameItems.refl _⟩
+
+theorem UcpmSameParts.symm {p p' : UcpmParts} (h : UcpmSameParts p p') : UcpmSameParts p' p :=
+  ⟨h.sips.symm, h.portNo.symm, h.user.symm, h.pass.symm, h.host.symm, h.params.symm, h.hdrs.symm⟩
+
+theorem ucpm_paramsEqv_congr {ps ps' qs qs' : List UcpmItem} (s1 : UcpmSameItems ps ps') (s2 : UcpmSameItems qs qs')
+    (h : UcpmParamsEqv ps qs) : UcpmParamsEqv ps' qs' := by
+  have key : ∀ {l l' : List UcpmItem}, UcpmSameItems l l' → ∀ s : List UInt8,
+      ((∃ i ∈ l, lowerL i.name = s) ↔ (∃ j ∈ l', lowerL j.name = s)) := by
+    intro l l' hs s
+    constructor
+    · rintro ⟨i, hi, h⟩
+      obtain ⟨j, hj, a, _⟩ := hs.fwd i hi
+      exact ⟨j, hj, a ▸ h⟩
+    · rintro ⟨j, hj, h⟩
+      obtain ⟨i, hi, a, _⟩ := hs.bwd j hj
+      exact ⟨i, hi, a.trans h⟩
+  refine ⟨fun s hs => ?_, fun i' hi' j' hj' hn => ?_⟩
+  · rw [← key s1 s, ← key s2 s]
+    exact h.1 s hs
+  · obtain ⟨i, hi, a1, b1⟩ := s1.bwd i' hi'
+    obtain ⟨j, hj, a2, b2⟩ := s2.bwd j' hj'
+    have := h.2 i hi j hj (a1.trans (hn.trans a2.symm))
+    exact b1.symm.trans (this.trans b2)
+
+theorem ucpm_hdrsEqv_congr {hs hs' ks ks' : List UcpmItem} (s1 : UcpmSameItems hs hs') (s2 : UcpmSameItems ks ks')
+    (h : UcpmHdrsEqv hs ks) : UcpmHdrsEqv hs' ks' := by
+  refine ⟨by rw [← s1.len, ← s2.len]; exact h.1, fun i' hi' => ?_⟩
+  obtain ⟨i, hi, a1, b1⟩ := s1.bwd i' hi'
+  obtain ⟨k, hk, a2, b2⟩ := h.2 i hi
+  obtain ⟨k', hk', a3, b3⟩ := s2.fwd k hk
+  exact ⟨k', hk', a1.symm.trans (a2.trans a3), b1.symm.trans (b2.trans b3)⟩
+
+/-- the verdict depends on the parts only up to `UcpmSameParts` -/
+theorem ucpm_spec_congr {p p' q q' : UcpmParts} (s1 : UcpmSameParts p p') (s2 : UcpmSameParts q q') (f : Nat) :
+    UcpmSpec p q f ↔ UcpmSpec p' q' f := by
+  have one : ∀ {p p' q q' : UcpmParts}, UcpmSameParts p p' → UcpmSameParts q q' → UcpmSpec p q f → UcpmSpec p' q' f := by
+    intro p p' q q' s1 s2 h
+    obtain ⟨a1, a2, a3, a4, a5, a6, a7⟩ := h
+    refine ⟨a1.imp id (fun h => ?_), a2.imp id (fun h => ?_), a3.imp id (fun h => ?_), a4.imp id (fun h => ?_), ?_,
+      a6.imp id (ucpm_paramsEqv_congr s1.params s2.params), a7.imp id (ucpm_hdrsEqv_congr s1.hdrs s2.hdrs)⟩
+    · rw [← s1.sips, ← s2.sips]; exact h
+    · rw [← s1.portNo, ← s2.portNo]; exact h
+    · rw [← s1.user, ← s2.user]; exact h
+    · rw [← s1.pass, ← s2.pass]; exact h
+    · rw [← s1.host, ← s2.host]; exact a5
+  exact ⟨one s1 s2, one s1.symm s2.symm⟩
+
+theorem ucpm_nodup_eq {l : List UcpmItem} (h : UcpmNoDup l) {i j : UcpmItem} (hi : i ∈ l) (hj : j ∈ l)
+    (hn : lowerL i.name = lowerL j.name) : i = j := by
+  induction l with
+  | nil => cases hi
+  | cons a t ih =>
+    have hc := List.pairwise_cons.1 h
+    rcases List.mem_cons.1 hi with hia | hit
+    · rcases List.mem_cons.1 hj with hja | hjt
+      · rw [hia, hja]
+      · rw [hia] at hn; exact absurd hn (hc.1 j hjt)
+    · rcases List.mem_cons.1 hj with hja | hjt
+      · rw [hja] at hn; exact absurd hn.symm (hc.1 i hit)
+      · exact ih hc.2 hit hjt
+
+theorem ucpm_paramsEqv_refl {l : List UcpmItem} (h : UcpmNoDup l) : UcpmParamsEqv l l :=
+  ⟨fun _ _ => Iff.rfl, fun i hi j hj hn => by rw [ucpm_nodup_eq h hi hj hn]⟩
+
+theorem ucpm_hdrsEqv_refl (l : List UcpmItem) : UcpmHdrsEqv l l := ⟨rfl, fun i hi => ⟨i, hi, rfl, rfl⟩⟩
+
+theorem ucpm_spec_refl (p : UcpmParts) (hp : UcpmOk p) (f : Nat) : UcpmSpec p p f :=
+  ⟨Or.inr rfl, Or.inr rfl, Or.inr rfl, Or.inr rfl, rfl, Or.inr (ucpm_paramsEqv_refl hp.paramsNoDup),
+    Or.inr (ucpm_hdrsEqv_refl _)⟩
+
+/-- [EXPORT C15] **ORDER AND LETTER CASE ON THE TEXT, general form**: the verdict of URIParseCmp on two renderings is unchanged when
+    either one is replaced by a rendering of the same parts up to the order of the parameter / header items and the
+    letter case of scheme, host, parameter names / values and header names / values; no panic, no error, each call
+    hands back the URIs parsed from its own two texts -/
+theorem uriParseCmp_congr_text (p p' q q' : UcpmParts) (hp : UcpmOk p) (hp' : UcpmOk p') (hq : UcpmOk q) (hq' : UcpmOk q')
+    (s1 : UcpmSameParts p p') (s2 : UcpmSameParts q q') (f : Nat) :
+    ∃ r, uriParseCmp (ucpmRaw p) (ucpmRaw q) f = some (r, UErr.none, 0, some (ucpmURI p), some (ucpmURI q)) ∧
+      uriParseCmp (ucpmRaw p') (ucpmRaw q') f = some (r, UErr.none, 0, some (ucpmURI p'), some (ucpmURI q')) := by
+  obtain ⟨r, hr, hrs⟩ := uriParseCmp_text_spec p q hp hq f
+  obtain ⟨r', hr', hrs'⟩ := uriParseCmp_text_spec p' q' hp' hq' f
+  have : r' = r := by
+    rw [Bool.eq_iff_iff, hrs, hrs']
+    exact (ucpm_spec_congr s1 s2 f).symm
+  subst this
+  exact ⟨r', hr, hr'⟩
+
+/-- [EXPORT C15] … in particular two renderings of the same parts compare EQUAL under every flag set -/
+theorem uriParseCmp_same_text (p p' : UcpmParts) (hp : UcpmOk p) (hp' : UcpmOk p') (s : UcpmSameParts p p') (f : Nat) :
+    uriParseCmp (ucpmRaw p) (ucpmRaw p') f = some (true, UErr.none, 0, some (ucpmURI p), some (ucpmURI p')) := by
+  obtain ⟨r, hr, hrs⟩ := uriParseCmp_text_spec p p' hp hp' f
+  have : r = true := hrs.2 ((ucpm_spec_congr (UcpmSameParts.refl p) s f).1 (ucpm_spec_refl p hp f))
+  rw [hr, this]
+
+
+/-! ### the side conditions are kept by a permutation of the items -/
+
+theorem ucpm_join_len (sep : UInt8) (l : List UcpmItem) :
+    (ucpmJoin sep l).length + (if l = [] then 0 else 1) = (l.map (fun it => it.text.length + 1)).sum := by
+  induction l with
+  | nil => rfl
+  | cons it rest ih =>
+    cases rest with
+    | nil => simp [ucpmJoin]
+    | cons it' r =>
+      rw [ucpmJoin]
+      rw [if_neg (by simp)] at ih
+      simp only [List.length_append, List.length_cons, List.map_cons, List.sum_cons, List.cons_ne_nil, if_false] at ih ⊢
+      omega
+
+theorem ucpm_sepjoin_len_perm (c sep : UInt8) {l l' : List UcpmItem} (h : l.Perm l') :
+    (if l = [] then [] else c :: ucpmJoin sep l).length = (if l' = [] then [] else c :: ucpmJoin sep l').length := by
+  have hs := (h.map (fun it : UcpmItem => it.text.length + 1)).sum_nat
+  have h1 := ucpm_join_len sep l
+  have h2 := ucpm_join_len sep l'
+  by_cases e : l = []
+  · subst e
+    rw [← h.nil_eq]
+  · have e' : l' ≠ [] := fun e' => e (by subst e'; exact h.eq_nil)
+    rw [if_neg e] at h1 ⊢
+    rw [if_neg e'] at h2 ⊢
+    simp only [List.length_cons]
+    omega
+
+theorem ucpm_nodup_perm {l l' : List UcpmItem} (h : l.Perm l') (hn : UcpmNoDup l) : UcpmNoDup l' :=
+  (h.pairwise_iff (R := fun i j : UcpmItem => lowerL i.name ≠ lowerL j.name)
+    (fun {x y} (hxy : lowerL x.name ≠ lowerL y.name) (e : lowerL y.name = lowerL x.name) => hxy e.symm)).1 hn
+
+/-- [EXPORT C15] reordering the parameter items and the header items keeps the side conditions -/
+theorem UcpmOk.perm {p : UcpmParts} (hp : UcpmOk p) {ps' hs' : List UcpmItem} (h1 : p.params.Perm ps')
+    (h2 : p.hdrs.Perm hs') : UcpmOk { p with params := ps', hdrs := hs' } where
+  scheme := hp.scheme
+  user := hp.user
+  passUser := hp.passUser
+  pass := hp.pass
+  hostNe := hp.hostNe
+  host := hp.host
+  port := hp.port
+  params := fun it hit => hp.params it (h1.mem_iff.2 hit)
+  hdrs := fun it hit => hp.hdrs it (h2.mem_iff.2 hit)
+  paramsLen := by rw [← h1.length_eq]; exact hp.paramsLen
+  hdrsLen := by rw [← h2.length_eq]; exact hp.hdrsLen
+  paramsNoDup := ucpm_nodup_perm h1 hp.paramsNoDup
+  hdrsNoDup := ucpm_nodup_perm h2 hp.hdrsNoDup
+  fit := by
+    have e1 := ucpm_sepjoin_len_perm 59 59 h1
+    have e2 := ucpm_sepjoin_len_perm 63 38 h2
+    have hf := hp.fit
+    unfold ucpmText at hf ⊢
+    simp only [List.length_append] at hf ⊢
+    have a1 : (ucpmPaText { p with params := ps', hdrs := hs' }).length = (ucpmPaText p).length := e1.symm
+    have a2 : (ucpmHdText { p with params := ps', hdrs := hs' }).length = (ucpmHdText p).length := e2.symm
+    have a3 : (ucpmUiText { p with params := ps', hdrs := hs' }).length = (ucpmUiText p).length := rfl
+    have a4 : (ucpmPoText { p with params := ps', hdrs := hs' }).length = (ucpmPoText p).length := rfl
+    rw [a1, a2, a3, a4]
+    exact hf
+
+/-! ### the laws in the words of the property, on the URI text -/
+
+/-- [EXPORT C15] **(2) ORDER OF PARAMETERS AND HEADERS, on the text**: a rendering and the rendering of the same parts with the
+    parameter items and / or the header items in another order compare EQUAL under `uriParseCmp` (URIParseCmp /
+    URIRawCmp) for every flag set: verdict true, no error, no panic, both parsed URIs handed back. -/
+theorem uriParseCmp_perm_text (p : UcpmParts) (hp : UcpmOk p) (ps' hs' : List UcpmItem) (h1 : p.params.Perm ps')
+    (h2 : p.hdrs.Perm hs') (f : Nat) :
+    uriParseCmp (ucpmRaw p) (ucpmRaw { p with params := ps', hdrs := hs' }) f =
+      some (true, UErr.none, 0, some (ucpmURI p), some (ucpmURI { p with params := ps', hdrs := hs' })) ∧
+    uriParseCmp (ucpmRaw { p with params := ps', hdrs := hs' }) (ucpmRaw p) f =
+      some (true, UErr.none, 0, some (ucpmURI { p with params := ps', hdrs := hs' }), some (ucpmURI p)) := by
+  have s : UcpmSameParts p { p with params := ps', hdrs := hs' } :=
+    ⟨rfl, rfl, rfl, rfl, rfl, UcpmSameItems.of_perm h1, UcpmSameItems.of_perm h2⟩
+  exact ⟨uriParseCmp_same_text p _ hp (hp.perm h1 h2) s f, uriParseCmp_same_text _ p (hp.perm h1 h2) hp s.symm f⟩
+
+/-- `p'` is `p` with other letter case in scheme, host, parameter names / values, header names / values: same user,
+    password and port, items in the same order -/
+structure UcpmCaseVar (p p' : UcpmParts) : Prop where
+  sips : p.sips = p'.sips
+  user : p.user = p'.user
+  pass : p.pass = p'.pass
+  host : lowerL p.host = lowerL p'.host
+  port : p.port = p'.port
+  params : UcpmAll2 (fun i j => lowerL i.name = lowerL j.name ∧ lowerL i.val = lowerL j.val) p.params p'.params
+  hdrs : UcpmAll2 (fun i j => lowerL i.name = lowerL j.name ∧ lowerL i.val = lowerL j.val) p.hdrs p'.hdrs
+
+theorem UcpmCaseVar.same {p p' : UcpmParts} (v : UcpmCaseVar p p') : UcpmSameParts p p' :=
+  ⟨v.sips, by unfold ucpmPortNo; rw [v.port], v.user, by unfold ucpmPassBytes; rw [v.pass], v.host,
+    UcpmSameItems.of_all2 v.params, UcpmSameItems.of_all2 v.hdrs⟩
+
+/-- [EXPORT C15] **(3) LETTER CASE, on the text**: two renderings that differ only in the letter case of scheme, host, parameter
+    names / values and header names / values compare EQUAL for every flag set. -/
+theorem uriParseCmp_case_text (p p' : UcpmParts) (hp : UcpmOk p) (hp' : UcpmOk p') (v : UcpmCaseVar p p') (f : Nat) :
+    uriParseCmp (ucpmRaw p) (ucpmRaw p') f = some (true, UErr.none, 0, some (ucpmURI p), some (ucpmURI p')) :=
+  uriParseCmp_same_text p p' hp hp' v.same f
+
+/-- [EXPORT C15] … and re-casing either side does not change the verdict against any third rendering -/
+theorem uriParseCmp_case_text_gen (p p' q q' : UcpmParts) (hp : UcpmOk p) (hp' : UcpmOk p') (hq : UcpmOk q)
+    (hq' : UcpmOk q') (v1 : UcpmCaseVar p p') (v2 : UcpmCaseVar q q') (f : Nat) :
+    ∃ r, uriParseCmp (ucpmRaw p) (ucpmRaw q) f = some (r, UErr.none, 0, some (ucpmURI p), some (ucpmURI q)) ∧
+      uriParseCmp (ucpmRaw p') (ucpmRaw q') f = some (r, UErr.none, 0, some (ucpmURI p'), some (ucpmURI q')) :=
+  uriParseCmp_congr_text p p' q q' hp hp' hq hq' v1.same v2.same f
+
+theorem ucpm_verdict_false {p q : UcpmParts} (hp : UcpmOk p) (hq : UcpmOk q) {f : Nat} (h : ¬ UcpmSpec p q f) :
+    uriParseCmp (ucpmRaw p) (ucpmRaw q) f = some (false, UErr.none, 0, some (ucpmURI p), some (ucpmURI q)) := by
+  obtain ⟨r, hr, hrs⟩ := uriParseCmp_text_spec p q hp hq f
+  cases r with
+  | false => exact hr
+  | true => exact absurd (hrs.1 rfl) h
+
+theorem ucpm_verdict_true {p q : UcpmParts} (hp : UcpmOk p) (hq : UcpmOk q) {f : Nat} (h : UcpmSpec p q f) :
+    uriParseCmp (ucpmRaw p) (ucpmRaw q) f = some (true, UErr.none, 0, some (ucpmURI p), some (ucpmURI q)) := by
+  obtain ⟨r, hr, hrs⟩ := uriParseCmp_text_spec p q hp hq f
+  rw [hr, hrs.2 h]
+
+/-- [EXPORT C15] **(4) USER, on the text**: renderings with different user bytes (e.g. another letter case) compare UNEQUAL when
+    the user comparison is not skipped -/
+theorem uriParseCmp_user_case_text (p q : UcpmParts) (hp : UcpmOk p) (hq : UcpmOk q) (f : Nat)
+    (hf : hasFlag f URICmpSkipUser = false) (hne : p.user ≠ q.user) :
+    uriParseCmp (ucpmRaw p) (ucpmRaw q) f = some (false, UErr.none, 0, some (ucpmURI p), some (ucpmURI q)) := by
+  apply ucpm_verdict_false hp hq
+  rintro ⟨_, _, h, _⟩
+  rcases h with h | h
+  · rw [hf] at h; cases h
+  · exact hne h
+
+/-- [EXPORT C15] **(4) PASSWORD, on the text** -/
+theorem uriParseCmp_pass_case_text (p q : UcpmParts) (hp : UcpmOk p) (hq : UcpmOk q) (f : Nat)
+    (hf : hasFlag f URICmpSkipPass = false) (hne : ucpmPassBytes p ≠ ucpmPassBytes q) :
+    uriParseCmp (ucpmRaw p) (ucpmRaw q) f = some (false, UErr.none, 0, some (ucpmURI p), some (ucpmURI q)) := by
+  apply ucpm_verdict_false hp hq
+  rintro ⟨_, _, _, h, _⟩
+  rcases h with h | h
+  · rw [hf] at h; cases h
+  · exact hne h
+
+/-- [EXPORT C15] **(4) … unless skipped**: renderings that agree in everything but user and password compare EQUAL when the
+    flags skip each of the two that differs -/
+theorem uriParseCmp_user_skip_text (p q : UcpmParts) (hp : UcpmOk p) (hq : UcpmOk q) (f : Nat)
+    (hu : hasFlag f URICmpSkipUser = true ∨ p.user = q.user)
+    (hw : hasFlag f URICmpSkipPass = true ∨ ucpmPassBytes p = ucpmPassBytes q)
+    (hs : p.sips = q.sips) (hn : ucpmPortNo p = ucpmPortNo q) (hh : lowerL p.host = lowerL q.host)
+    (hpa : UcpmSameItems p.params q.params) (hhd : UcpmSameItems p.hdrs q.hdrs) :
+    uriParseCmp (ucpmRaw p) (ucpmRaw q) f = some (true, UErr.none, 0, some (ucpmURI p), some (ucpmURI q)) := by
+  apply ucpm_verdict_true hp hq
+  exact ⟨Or.inr hs, Or.inr hn, hu, hw, hh,
+    Or.inr (ucpm_paramsEqv_congr (UcpmSameItems.refl _) hpa (ucpm_paramsEqv_refl hp.paramsNoDup)),
+    Or.inr (ucpm_hdrsEqv_congr (UcpmSameItems.refl _) hhd (ucpm_hdrsEqv_refl _))⟩
+
+/-- [EXPORT C15] **(5) PRESENCE RULE, on the text**: a rendering with a `user` / `ttl` / `method` / `maddr` parameter item (any
+    letter case) and a rendering without one compare UNEQUAL, in either order, when the parameters are not skipped -/
+theorem uriParseCmp_presence_text (p q : UcpmParts) (hp : UcpmOk p) (hq : UcpmOk q) (f : Nat)
+    (hf : hasFlag f URICmpSkipParams = false) (s : List UInt8) (hs : s ∈ [sUser, sTtl, sMethod, sMaddr])
+    (h1 : ∃ i ∈ p.params, lowerL i.name = s) (h2 : ¬ ∃ j ∈ q.params, lowerL j.name = s) :
+    uriParseCmp (ucpmRaw p) (ucpmRaw q) f = some (false, UErr.none, 0, some (ucpmURI p), some (ucpmURI q)) ∧
+    uriParseCmp (ucpmRaw q) (ucpmRaw p) f = some (false, UErr.none, 0, some (ucpmURI q), some (ucpmURI p)) := by
+  constructor
+  · apply ucpm_verdict_false hp hq
+    rintro ⟨_, _, _, _, _, h, _⟩
+    rcases h with h | h
+    · rw [hf] at h; cases h
+    · exact h2 ((h.1 s hs).1 h1)
+  · apply ucpm_verdict_false hq hp
+    rintro ⟨_, _, _, _, _, h, _⟩
+    rcases h with h | h
+    · rw [hf] at h; cases h
+    · exact h2 ((h.1 s hs).2 h1)
+
+theorem ucpm_paramsEqv_extra {ps : List UcpmItem} {it : UcpmItem} (hn : UcpmNoDup (it :: ps))
+    (ho : lowerL it.name ∉ [sUser, sTtl, sMethod, sMaddr]) :
+    UcpmParamsEqv ps (it :: ps) ∧ UcpmParamsEqv (it :: ps) ps := by
+  have key : ∀ s ∈ [sUser, sTtl, sMethod, sMaddr],
+      ((∃ i ∈ ps, lowerL i.name = s) ↔ (∃ j ∈ it :: ps, lowerL j.name = s)) := by
+    intro s hs
+    constructor
+    · rintro ⟨i, hi, h⟩; exact ⟨i, List.mem_cons_of_mem _ hi, h⟩
+    · rintro ⟨j, hj, h⟩
+      rcases List.mem_cons.1 hj with rfl | hj
+      · rw [h] at ho; exact absurd hs ho
+      · exact ⟨j, hj, h⟩
+  refine ⟨⟨key, fun i hi j hj h => ?_⟩, ⟨fun s hs => (key s hs).symm, fun i hi j hj h => ?_⟩⟩
+  · rw [ucpm_nodup_eq hn (List.mem_cons_of_mem _ hi) hj h]
+  · rw [ucpm_nodup_eq hn hi (List.mem_cons_of_mem _ hj) h]
+
+/-- [EXPORT C15] **(5) … while a parameter with any OTHER name present in only one of the two does not matter**: a rendering and
+    the rendering with one more parameter item (anywhere in the list) whose name is none of user / ttl / method /
+    maddr compare EQUAL, in either order, for every flag set -/
+theorem uriParseCmp_extra_param_text (p : UcpmParts) (it : UcpmItem) (ps' : List UcpmItem)
+    (hperm : (it :: p.params).Perm ps') (hp : UcpmOk p) (hq : UcpmOk { p with params := ps' })
+    (ho : lowerL it.name ∉ [sUser, sTtl, sMethod, sMaddr]) (f : Nat) :
+    uriParseCmp (ucpmRaw p) (ucpmRaw { p with params := ps' }) f =
+      some (true, UErr.none, 0, some (ucpmURI p), some (ucpmURI { p with params := ps' })) ∧
+    uriParseCmp (ucpmRaw { p with params := ps' }) (ucpmRaw p) f =
+      some (true, UErr.none, 0, some (ucpmURI { p with params := ps' }), some (ucpmURI p)) := by
+  have hn : UcpmNoDup (it :: p.params) := ucpm_nodup_perm hperm.symm hq.paramsNoDup
+  obtain ⟨e1, e2⟩ := ucpm_paramsEqv_extra hn ho
+  have s := UcpmSameItems.of_perm hperm
+  constructor
+  · apply ucpm_verdict_true hp hq
+    exact ⟨Or.inr rfl, Or.inr rfl, Or.inr rfl, Or.inr rfl, rfl,
+      Or.inr (ucpm_paramsEqv_congr (UcpmSameItems.refl _) s e1), Or.inr (ucpm_hdrsEqv_refl _)⟩
+  · apply ucpm_verdict_true hq hp
+    exact ⟨Or.inr rfl, Or.inr rfl, Or.inr rfl, Or.inr rfl, rfl,
+      Or.inr (ucpm_paramsEqv_congr s (UcpmSameItems.refl _) e2), Or.inr (ucpm_hdrsEqv_refl _)⟩
+
+
+/-! ### tests / non-vacuity (closed computations, `decide +kernel`) -/
+
+section UcpmTests
+
+instance ucpmDecPChar (f : Nat) (c : UInt8) : Decidable (PChar f c) :=
+  inferInstanceAs (Decidable (tokAllowedChar c f = true ∧ c ≠ tpSep f ∧ c ≠ tpTerm f))
+
+instance ucpmDecItemOk (f : Nat) (it : UcpmItem) : Decidable (UcpmItemOk f it) :=
+  decidable_of_iff (it.name ≠ [] ∧ (∀ c ∈ it.name, PChar f c) ∧ (∀ c ∈ it.val, PChar f c))
+    ⟨fun ⟨a, b, c⟩ => ⟨a, b, c⟩, fun ⟨a, b, c⟩ => ⟨a, b, c⟩⟩
+
+instance ucpmDecNoDup (l : List UcpmItem) : Decidable (UcpmNoDup l) :=
+  inferInstanceAs (Decidable (l.Pairwise (fun i j => lowerL i.name ≠ lowerL j.name)))
+
+/-- the bytes of a string literal -/
+def ucpmB (s : String) : List UInt8 := s.toUTF8.data.toList
+
+/-- `sip:Alice:pw@Example.COM:5060;transport=udp;Foo=Bar;lr?a=1&B=2` -/
+def ucpmExA : UcpmParts :=
+  { sips := false, scheme := ucpmB "sip:", user := ucpmB "Alice", pass := some (ucpmB "pw"), host := ucpmB "Example.COM",
+    port := some (ucpmB "5060"),
+    params := [⟨ucpmB "transport", ucpmB "udp"⟩, ⟨ucpmB "Foo", ucpmB "Bar"⟩, ⟨ucpmB "lr", []⟩],
+    hdrs := [⟨ucpmB "a", ucpmB "1"⟩, ⟨ucpmB "B", ucpmB "2"⟩] }
+
+/-- test: the rendering is the expected text -/
+example : ucpmRaw ucpmExA = "sip:Alice:pw@Example.COM:5060;transport=udp;Foo=Bar;lr?a=1&B=2".toUTF8.data := by
+  decide +kernel
+
+/-- non-vacuity of `UcpmOk` (a URI with user, password, port, three parameters, two headers) -/
+theorem ucpmExA_ok : UcpmOk ucpmExA where
+  scheme := by decide +kernel
+  user := by decide +kernel
+  passUser := by decide +kernel
+  pass := fun pw h => by cases h; decide +kernel
+  hostNe := by decide +kernel
+  host := by decide +kernel
+  port := fun d h => by cases h; decide +kernel
+  params := by decide +kernel
+  hdrs := by decide +kernel
+  paramsLen := by decide +kernel
+  hdrsLen := by decide +kernel
+  paramsNoDup := by decide +kernel
+  hdrsNoDup := by decide +kernel
+  fit := by decide +kernel
+
+/-- test: evaluation of the model agrees with `ucpm_parse` -/
+example : parseURI (ucpmRaw ucpmExA) {} = (UErr.none, 62, ucpmURI ucpmExA, false) := by decide +kernel
+
+/-- `sip:Alice:pw@Example.COM:5060;lr;transport=udp;Foo=Bar?B=2&a=1`: the items in another order -/
+example : ucpmRaw { ucpmExA with params := [⟨ucpmB "lr", []⟩, ⟨ucpmB "transport", ucpmB "udp"⟩, ⟨ucpmB "Foo", ucpmB "Bar"⟩],
+                                 hdrs := [⟨ucpmB "B", ucpmB "2"⟩, ⟨ucpmB "a", ucpmB "1"⟩] } =
+    "sip:Alice:pw@Example.COM:5060;lr;transport=udp;Foo=Bar?B=2&a=1".toUTF8.data := by decide +kernel
+
+/-- `uriParseCmp_perm_text` applied: equal under every flag value -/
+example (f : Nat) :
+    (uriParseCmp "sip:Alice:pw@Example.COM:5060;transport=udp;Foo=Bar;lr?a=1&B=2".toUTF8.data
+      "sip:Alice:pw@Example.COM:5060;lr;transport=udp;Foo=Bar?B=2&a=1".toUTF8.data f).map (·.1) = some true := by
+  have h := (uriParseCmp_perm_text ucpmExA ucpmExA_ok
+    [⟨ucpmB "lr", []⟩, ⟨ucpmB "transport", ucpmB "udp"⟩, ⟨ucpmB "Foo", ucpmB "Bar"⟩]
+    [⟨ucpmB "B", ucpmB "2"⟩, ⟨ucpmB "a", ucpmB "1"⟩]
+    (by decide +kernel) (by decide +kernel) f).1
+  have e1 : ucpmRaw ucpmExA = "sip:Alice:pw@Example.COM:5060;transport=udp;Foo=Bar;lr?a=1&B=2".toUTF8.data := by
+    decide +kernel
+  have e2 : ucpmRaw { ucpmExA with
+        params := [⟨ucpmB "lr", []⟩, ⟨ucpmB "transport", ucpmB "udp"⟩, ⟨ucpmB "Foo", ucpmB "Bar"⟩],
+        hdrs := [⟨ucpmB "B", ucpmB "2"⟩, ⟨ucpmB "a", ucpmB "1"⟩] } =
+      "sip:Alice:pw@Example.COM:5060;lr;transport=udp;Foo=Bar?B=2&a=1".toUTF8.data := by decide +kernel
+  rw [e1, e2] at h
+  rw [h]; rfl
+
+
+/-- the same URI with other letter case in scheme, host, parameter names / values, header names / values -/
+def ucpmExA' : UcpmParts :=
+  { sips := false, scheme := ucpmB "SIP:", user := ucpmB "Alice", pass := some (ucpmB "pw"), host := ucpmB "eXAMPLE.com",
+    port := some (ucpmB "5060"),
+    params := [⟨ucpmB "TRANSPORT", ucpmB "UDP"⟩, ⟨ucpmB "fOO", ucpmB "bAR"⟩, ⟨ucpmB "LR", []⟩],
+    hdrs := [⟨ucpmB "A", ucpmB "1"⟩, ⟨ucpmB "b", ucpmB "2"⟩] }
+
+example : ucpmRaw ucpmExA' = "SIP:Alice:pw@eXAMPLE.com:5060;TRANSPORT=UDP;fOO=bAR;LR?A=1&b=2".toUTF8.data := by
+  decide +kernel
+
+theorem ucpmExA'_ok : UcpmOk ucpmExA' where
+  scheme := by decide +kernel
+  user := by decide +kernel
+  passUser := by decide +kernel
+  pass := fun pw h => by cases h; decide +kernel
+  hostNe := by decide +kernel
+  host := by decide +kernel
+  port := fun d h => by cases h; decide +kernel
+  params := by decide +kernel
+  hdrs := by decide +kernel
+  paramsLen := by decide +kernel
+  hdrsLen := by decide +kernel
+  paramsNoDup := by decide +kernel
+  hdrsNoDup := by decide +kernel
+  fit := by decide +kernel
+
+/-- non-vacuity of `UcpmCaseVar` (with real changes everywhere it allows them) -/
+theorem ucpmExA_var : UcpmCaseVar ucpmExA ucpmExA' where
+  sips := rfl
+  user := rfl
+  pass := rfl
+  host := by decide +kernel
+  port := rfl
+  params := UcpmAll2.cons (by decide +kernel) (UcpmAll2.cons (by decide +kernel) (UcpmAll2.cons (by decide +kernel)
+    UcpmAll2.nil))
+  hdrs := UcpmAll2.cons (by decide +kernel) (UcpmAll2.cons (by decide +kernel) UcpmAll2.nil)
+
+/-- `uriParseCmp_case_text` applied -/
+example (f : Nat) : uriParseCmp (ucpmRaw ucpmExA) (ucpmRaw ucpmExA') f =
+    some (true, UErr.none, 0, some (ucpmURI ucpmExA), some (ucpmURI ucpmExA')) :=
+  uriParseCmp_case_text ucpmExA ucpmExA' ucpmExA_ok ucpmExA'_ok ucpmExA_var f
+
+/-- test: evaluation of the model agrees (flags 0) -/
+example : (uriParseCmp (ucpmRaw ucpmExA) (ucpmRaw ucpmExA') 0).map (·.1) = some true := by decide +kernel
+
+/-- the user in another letter case: `sip:alice:pw@…` -/
+def ucpmExU : UcpmParts := { ucpmExA with user := ucpmB "alice" }
+
+theorem ucpmExU_ok : UcpmOk ucpmExU where
+  scheme := by decide +kernel
+  user := by decide +kernel
+  passUser := by decide +kernel
+  pass := fun pw h => by cases h; decide +kernel
+  hostNe := by decide +kernel
+  host := by decide +kernel
+  port := fun d h => by cases h; decide +kernel
+  params := by decide +kernel
+  hdrs := by decide +kernel
+  paramsLen := by decide +kernel
+  hdrsLen := by decide +kernel
+  paramsNoDup := by decide +kernel
+  hdrsNoDup := by decide +kernel
+  fit := by decide +kernel
+
+/-- `uriParseCmp_user_case_text` / `uriParseCmp_user_skip_text` applied: unequal unless the user is skipped -/
+example (f : Nat) (hf : hasFlag f URICmpSkipUser = false) : uriParseCmp (ucpmRaw ucpmExA) (ucpmRaw ucpmExU) f =
+    some (false, UErr.none, 0, some (ucpmURI ucpmExA), some (ucpmURI ucpmExU)) :=
+  uriParseCmp_user_case_text ucpmExA ucpmExU ucpmExA_ok ucpmExU_ok f hf (by decide +kernel)
+example (f : Nat) (hf : hasFlag f URICmpSkipUser = true) : uriParseCmp (ucpmRaw ucpmExA) (ucpmRaw ucpmExU) f =
+    some (true, UErr.none, 0, some (ucpmURI ucpmExA), some (ucpmURI ucpmExU)) :=
+  uriParseCmp_user_skip_text ucpmExA ucpmExU ucpmExA_ok ucpmExU_ok f (Or.inl hf) (Or.inr rfl) rfl rfl rfl
+    (UcpmSameItems.refl _) (UcpmSameItems.refl _)
+/-- test: evaluation of the model agrees -/
+example : (uriParseCmp (ucpmRaw ucpmExA) (ucpmRaw ucpmExU) 0).map (·.1) = some false ∧
+    (uriParseCmp (ucpmRaw ucpmExA) (ucpmRaw ucpmExU) URICmpSkipUser).map (·.1) = some true := by decide +kernel
+
+/-- one more parameter: `…;transport=udp;Foo=Bar;USER=phone;lr?…` -/
+def ucpmExP : UcpmParts :=
+  { ucpmExA with params := [⟨ucpmB "transport", ucpmB "udp"⟩, ⟨ucpmB "Foo", ucpmB "Bar"⟩, ⟨ucpmB "USER", ucpmB "phone"⟩,
+      ⟨ucpmB "lr", []⟩] }
+/-- … and `…;transport=udp;Foo=Bar;x-y;lr?…` -/
+def ucpmExX : UcpmParts :=
+  { ucpmExA with params := [⟨ucpmB "transport", ucpmB "udp"⟩, ⟨ucpmB "Foo", ucpmB "Bar"⟩, ⟨ucpmB "x-y", []⟩,
+      ⟨ucpmB "lr", []⟩] }
+
+theorem ucpmExP_ok : UcpmOk ucpmExP where
+  scheme := by decide +kernel
+  user := by decide +kernel
+  passUser := by decide +kernel
+  pass := fun pw h => by cases h; decide +kernel
+  hostNe := by decide +kernel
+  host := by decide +kernel
+  port := fun d h => by cases h; decide +kernel
+  params := by decide +kernel
+  hdrs := by decide +kernel
+  paramsLen := by decide +kernel
+  hdrsLen := by decide +kernel
+  paramsNoDup := by decide +kernel
+  hdrsNoDup := by decide +kernel
+  fit := by decide +kernel
+
+theorem ucpmExX_ok : UcpmOk ucpmExX where
+  scheme := by decide +kernel
+  user := by decide +kernel
+  passUser := by decide +kernel
+  pass := fun pw h => by cases h; decide +kernel
+  hostNe := by decide +kernel
+  host := by decide +kernel
+  port := fun d h => by cases h; decide +kernel
+  params := by decide +kernel
+  hdrs := by decide +kernel
+  paramsLen := by decide +kernel
+  hdrsLen := by decide +kernel
+  paramsNoDup := by decide +kernel
+  hdrsNoDup := by decide +kernel
+  fit := by decide +kernel
+
+/-- `uriParseCmp_presence_text` applied: a `USER` parameter in only one of the two ⇒ unequal, both orders -/
+example (f : Nat) (hf : hasFlag f URICmpSkipParams = false) :
+    uriParseCmp (ucpmRaw ucpmExP) (ucpmRaw ucpmExA) f =
+      some (false, UErr.none, 0, some (ucpmURI ucpmExP), some (ucpmURI ucpmExA)) ∧
+    uriParseCmp (ucpmRaw ucpmExA) (ucpmRaw ucpmExP) f =
+      some (false, UErr.none, 0, some (ucpmURI ucpmExA), some (ucpmURI ucpmExP)) :=
+  uriParseCmp_presence_text ucpmExP ucpmExA ucpmExP_ok ucpmExA_ok f hf sUser (by simp) (by decide +kernel)
+    (by decide +kernel)
+
+/-- `uriParseCmp_extra_param_text` applied: an `x-y` parameter in only one of the two does not matter -/
+example (f : Nat) :
+    uriParseCmp (ucpmRaw ucpmExA) (ucpmRaw ucpmExX) f =
+      some (true, UErr.none, 0, some (ucpmURI ucpmExA), some (ucpmURI ucpmExX)) ∧
+    uriParseCmp (ucpmRaw ucpmExX) (ucpmRaw ucpmExA) f =
+      some (true, UErr.none, 0, some (ucpmURI ucpmExX), some (ucpmURI ucpmExA)) :=
+  uriParseCmp_extra_param_text ucpmExA ⟨ucpmB "x-y", []⟩ ucpmExX.params (by decide +kernel) ucpmExA_ok ucpmExX_ok
+    (by decide +kernel) f
+
+/-- tests: evaluation of the model agrees (flags 0) -/
+example : (uriParseCmp (ucpmRaw ucpmExP) (ucpmRaw ucpmExA) 0).map (·.1) = some false ∧
+    (uriParseCmp (ucpmRaw ucpmExA) (ucpmRaw ucpmExX) 0).map (·.1) = some true := by decide +kernel
+
+/-- behaviour worth knowing (tests): an empty password written (`u:@h`) equals no password; a port written with
+    leading zeros, `:0` or an empty port `:` equals the same number / no port; header values are compared up to
+    letter case; a parameter without value has the empty value -/
+example : (uriParseCmp "sip:u@h".toUTF8.data "sip:u:@h".toUTF8.data 0).map (·.1) = some true ∧
+    (uriParseCmp "sip:h:5060".toUTF8.data "sip:h:05060".toUTF8.data 0).map (·.1) = some true ∧
+    (uriParseCmp "sip:h".toUTF8.data "sip:h:".toUTF8.data 0).map (·.1) = some true ∧
+    (uriParseCmp "sip:h?a=X".toUTF8.data "sip:h?A=x".toUTF8.data 0).map (·.1) = some true ∧
+    (uriParseCmp "sip:h;lr".toUTF8.data "sip:h;lr=".toUTF8.data 0).map (·.1) = some true ∧
+    (uriParseCmp "sip:h;lr".toUTF8.data "sip:h;lr=x".toUTF8.data 0).map (·.1) = some false := by decide +kernel
+
+end UcpmTests
 end Sipsp
